@@ -21,6 +21,8 @@ func init() {
 			"The version handed to serialize and to the response object is the selected one. NOT decided: capability / session-id extraction for arbitrary hello layouts (regular expressions), read segmentation.",
 		Assumptions: []string{"ServerHasCapability is membership in the advertised list (checked: loop returns true on equality only)", "regexp semantics opaque"},
 		Mutants: []Mutant{
+			{ID: "C09-password-prompt-unanchored", Desc: "the built-in password prompt pattern no longer has to end the line", Rule: "C09/password-prompt-anchored",
+				Edits: []Edit{{File: "channel/auth.go", Old: "(?im)(.*@.*)?password:\\s?$", New: "(?im)(.*@.*)?password:\\s*"}}},
 			{ID: "C09-greedy-capability", Desc: "capability capture made greedy", Rule: "C09/capability-capture",
 				Edits: []Edit{{File: "driver/netconf/driver.go", Old: "capability>)(.*?)(?:</", New: "capability>)\\s*(\\S+)\\s*(?:</"}}},
 			{ID: "C09-has-capability-prefix", Desc: "ServerHasCapability matches by prefix", Rule: "C09/has-capability",
